@@ -45,6 +45,10 @@ def _params(stacks, bases, progs):
         for base in bases:
             for prog in progs:
                 out.append(dict(layers=layers, base=base, prog=prog))
+                if base == "manual" and "timeout" in layers:
+                    # the delegate never runs anything: the timeout fires at t=2 and the cancel,
+                    # with the done-callbacks, runs on the timeout thread
+                    out.append(dict(layers=layers, base="hold", prog=prog))
     return out
 
 
@@ -54,8 +58,18 @@ P3x1 = _progs(3, 1)
 
 
 def body(mc, p):
-    st = Stack(mc, p["layers"], base=p["base"], workers=1)
+    st = Stack(mc, p["layers"], base=p["base"], workers=1,
+               opts=dict(timeout=2.0) if p["base"] == "hold" else None)
     ex = st.top
+    flaky_calls = [0]
+
+    def flaky():
+        # fails once, so that a retry layer goes through its re-queue path
+        mc.point()
+        flaky_calls[0] += 1
+        if flaky_calls[0] == 1:
+            raise E("flaky")
+        return "p"
 
     def plain():
         mc.point()
@@ -83,7 +97,7 @@ def body(mc, p):
         except RuntimeError:
             mc.emit("cb.nested.refused")
 
-    f0 = ex.submit(plain)
+    f0 = ex.submit(flaky if "retry" in p["layers"] else plain)
 
     def runner(ops):
         def run():
